@@ -353,3 +353,51 @@ Proof.
     + injection H as <-. cbn. lia.
     + destruct m; discriminate.
 Qed.
+
+(* ---------------------------------------------------------------- handle arithmetic: convert functions, mk_handle *)
+Lemma land_shift_low a b : 0 <= b < 2 ^ 32 -> Z.land (Z.shiftl a 32) b = 0.
+Proof.
+  intros Hb. apply Z.bits_inj'. intros n Hn. rewrite Z.land_spec, Z.bits_0.
+  destruct (Z_lt_dec n 32) as [L|G].
+  - rewrite Z.shiftl_spec_low by lia. reflexivity.
+  - destruct (Z.eq_dec b 0) as [->|Hz]; [rewrite Z.bits_0; apply andb_false_r|].
+    rewrite (Z.bits_above_log2 b n); [apply andb_false_r|lia|].
+    assert (Z.log2 b < 32) by (apply Z.log2_lt_pow2; lia). lia.
+Qed.
+
+Lemma lor_shift a b : 0 <= b < 2 ^ 32 -> Z.lor (Z.shiftl a 32) b = a * 2 ^ 32 + b.
+Proof.
+  intros Hb. rewrite <- Z.lxor_lor by (apply land_shift_low; exact Hb).
+  rewrite <- Z.add_nocarry_lxor by (apply land_shift_low; exact Hb).
+  rewrite Z.shiftl_mul_pow2 by lia. reflexivity.
+Qed.
+
+Lemma src_mk_handle c i : - 2 ^ 31 <= c < 2 ^ 31 -> 0 <= i < 2 ^ 32 ->
+  u64 (Z.lor (u64 (Z.shiftl (u64 (u64 c)) 32)) (u64 i)) = mk_handle c i.
+Proof.
+  intros Hc Hi. rewrite (u64_small i) by (change (2 ^ 64) with 18446744073709551616; lia).
+  rewrite Z.shiftl_mul_pow2 by lia.
+  assert (E : u64 (u64 (u64 c) * 2 ^ 32) = (c mod two32) * 2 ^ 32).
+  { unfold two32. unwrap. change (2 ^ 31) with 2147483648 in Hc. lia. }
+  rewrite E. rewrite <- (Z.shiftl_mul_pow2 (c mod two32) 32) by lia.
+  rewrite lor_shift by exact Hi. unfold mk_handle, two32.
+  change (2 ^ 32) with 4294967296 in *. change (2 ^ 31) with 2147483648 in Hc.
+  apply u64_small. change (2 ^ 64) with 18446744073709551616. lia.
+Qed.
+
+Theorem src_base_convert h : 0 <= h < 2 ^ 64 -> qb_hdb_base_convert h = base_convert h.
+Proof.
+  intros H. unfold qb_hdb_base_convert, base_convert, two32.
+  replace (u64 4294967295) with (Z.ones 32) by reflexivity. rewrite Z.land_ones by lia.
+  change (2 ^ 32) with 4294967296. apply u32_small. change (2 ^ 32) with 4294967296. lia.
+Qed.
+
+Theorem src_nocheck_convert i : 0 <= i < 2 ^ 32 -> qb_hdb_nocheck_convert i = nocheck_convert i.
+Proof.
+  intros H. unfold qb_hdb_nocheck_convert, nocheck_convert, two32. cbv zeta.
+  rewrite (u64_small 4294967295) by (change (2 ^ 64) with 18446744073709551616; lia).
+  rewrite (u64_small i) by (change (2 ^ 64) with 18446744073709551616; change (2 ^ 32) with 4294967296 in H; lia).
+  rewrite (u64_small (Z.shiftl 4294967295 32)) by (vm_compute; split; [discriminate|reflexivity]).
+  rewrite lor_shift by exact H. change (2 ^ 32) with 4294967296 in *.
+  rewrite Z.mod_small by lia. apply u64_small. change (2 ^ 64) with 18446744073709551616. lia.
+Qed.
